@@ -163,6 +163,8 @@ def run(ctx: Ctx) -> None:
     wiring(ctx)
     t1_grid.run_grid_tables(ctx, for_c02=True)
     header_eval(ctx)
+    t1_grid.run_singleton(ctx)
+    ctx.floor("T1.itk-singleton", 5)
     ctx.floor("T1.itk", 16)
     ctx.floor("T1.itk-header", 4)
     ctx.floor("E7.header-wiring", 14)
